@@ -24,4 +24,4 @@ Definition src_tree : srcp :=
      timers_reset_stream := true; hijack_clears_body := true; retry_clears_reuse := true;
      setupretry_clears_reuse := false; global_lost_cas_stops := true; append_error_continues := true;
      reset_excludes_global := true; reset_reads_status := false; res_counts_unlimited := true;
-     send_once_per_upreq := false; started_marked_first := true; try_captures_id := true; global_captures_id := true; on_reset_checks_done := false; reason_code := tree_reason_code |}.
+     send_once_per_upreq := false; started_marked_first := true; try_captures_id := true; global_captures_id := true; on_reset_checks_done := false; disable_retry_first := true; reason_code := tree_reason_code |}.
